@@ -872,161 +872,191 @@ theorem names_append (a b : List (Nat × List Nat)) (L : Nat) :
 theorem names_cons (x : Nat × List Nat) (a : List (Nat × List Nat)) (L : Nat) :
     names L (x :: a) = genName (L - 1) x.1 :: names (L + 1) a := by simp [names, mkFresh, freshAt]
 
-theorem nest_le_nestL {t : Tree} : ∀ {ts : List Tree}, t ∈ ts → nest t ≤ nestL ts
-  | [], h => by cases h
-  | a :: ts, h => by
-    simp only [nestL]
-    rcases List.mem_cons.1 h with rfl | h
-    · omega
-    · have := nest_le_nestL h; omega
+/-! ### the tree below the end of the first chain -/
+
+theorem rest_eq_restL_endKids : ∀ t : Tree, rest t = restL (endKids t)
+  | .node _ [] => by simp [rest, endKids, restL]
+  | .node _ [k] => by simp only [rest, endKids]; exact rest_eq_restL_endKids k
+  | .node _ (_ :: _ :: _) => by simp [rest, endKids]
+
+theorem preorderL_append : ∀ a b : List Tree, preorderL (a ++ b) = preorderL a ++ preorderL b
+  | [], b => by simp [preorderL]
+  | t :: a, b => by simp [preorderL, preorderL_append a b]
+
+theorem restL_append : ∀ a b : List Tree, restL (a ++ b) = restL a ++ restL b
+  | [], b => by simp [restL]
+  | t :: a, b => by simp [restL, restL_append a b]
+
+theorem sizeL_append : ∀ a b : List Tree, sizeL (a ++ b) = sizeL a + sizeL b
+  | [], b => by simp [sizeL]
+  | t :: a, b => by simp [sizeL, sizeL_append a b]; omega
+
+theorem reprL_append {adj : Adj} : ∀ {a b : List Tree}, ReprL adj a → ReprL adj b → ReprL adj (a ++ b)
+  | [], _, _, hb => hb
+  | t :: a, b, ha, hb => by
+    simp only [ReprL, List.cons_append] at ha ⊢
+    exact ⟨ha.1, reprL_append ha.2 hb⟩
+
+theorem repr_endKids {adj : Adj} : ∀ t : Tree, Repr adj t → ReprL adj (endKids t)
+  | .node _ [], _ => by simp [endKids, ReprL]
+  | .node _ [k], hr => by
+    simp only [Repr, ReprL] at hr
+    simp only [endKids]
+    exact repr_endKids k hr.2.1
+  | .node _ (k1 :: k2 :: ks), hr => by
+    simp only [Repr] at hr
+    exact hr.2
+
+/-- pre-order = the first chain, then the subtrees below its end -/
+theorem preorder_first_endKids : ∀ t : Tree, preorder t = first t ++ preorderL (endKids t)
+  | .node i [] => by simp [preorder, first, endKids, preorderL]
+  | .node i [k] => by
+    simp only [preorder, preorderL, List.append_nil, first, endKids, List.cons_append]
+    rw [preorder_first_endKids k]
+  | .node i (k1 :: k2 :: ks) => by simp [preorder, first, endKids]
+
+theorem size_first_endKids : ∀ t : Tree, size t = (first t).length + sizeL (endKids t)
+  | .node i [] => by simp [size, sizeL, first, endKids]
+  | .node i [k] => by
+    simp only [size, sizeL, first, endKids, List.length_cons]
+    have := size_first_endKids k
+    omega
+  | .node i (k1 :: k2 :: ks) => by simp [size, first, endKids]
+
+theorem first_length_pos (t : Tree) : 1 ≤ (first t).length := by
+  obtain ⟨l, h⟩ := first_cons t
+  rw [h]; simp
+
+mutual
+  theorem size_eq_length_preorder : ∀ t : Tree, size t = (preorder t).length
+    | .node i ks => by simp only [size, preorder, List.length_cons, sizeL_eq_length_preorderL ks]; omega
+  theorem sizeL_eq_length_preorderL : ∀ ts : List Tree, sizeL ts = (preorderL ts).length
+    | [] => by simp [sizeL, preorderL]
+    | t :: ts => by
+      simp only [sizeL, preorderL, List.length_append, size_eq_length_preorder t, sizeL_eq_length_preorderL ts]
+end
 
 section Main
 set_option linter.unusedSectionVars false
 variable {adj : Adj} {base : List Seg} (hnd : (base.map (·.id)).Nodup)
+
+/-- the `try:` block on the unfolding `t` of the dictionary, entered with the current group `g` (the last group,
+    at index `|pre|`): it extends `g` by the chain `first t`, touches nothing else, and hands back the children
+    of the chain's last segment (the heads of the branches still to be sectioned) -/
+theorem walk_spec : ∀ (t : Tree) (fuel : Nat) (segs : List Seg) (pre : List Group) (g : Group),
+    Repr adj t → (first t).length ≤ fuel → (first t).Nodup → (∀ x ∈ first t, x ∉ g.members) →
+    walk adj fuel ⟨segs, pre ++ [g]⟩ t.id pre.length
+      = .ok (⟨segs, pre ++ [{ g with members := g.members ++ first t }]⟩, (endKids t).map Tree.id)
+  | .node i [], fuel, segs, pre, g, hr, hf, _, hmem => by
+    obtain ⟨f, rfl⟩ : ∃ f, fuel = f + 1 := ⟨fuel - 1, by simp only [first, List.length_singleton] at hf; omega⟩
+    simp only [Repr, List.map_nil] at hr
+    have hl : lookup adj i = none := by simpa [enc] using hr.1
+    have hi : i ∉ g.members := hmem i (by simp [first])
+    simp only [walk, Tree.id_node, hl, St.addMember, modifyAt_append, addMemberG_new hi, first, endKids, List.map_nil]
+  | .node i [k'], fuel, segs, pre, g, hr, hf, hnd', hmem => by
+    obtain ⟨f, rfl⟩ : ∃ f, fuel = f + 1 := ⟨fuel - 1, by simp only [first, List.length_cons] at hf; omega⟩
+    simp only [Repr, ReprL, List.map_cons, List.map_nil] at hr
+    have hl : lookup adj i = some [k'.id] := by simpa [enc] using hr.1
+    have hi : i ∉ g.members := hmem i (by simp [first])
+    simp only [first, List.nodup_cons] at hnd'
+    have hmem' : ∀ x ∈ first k', x ∉ ({ g with members := g.members ++ [i] } : Group).members := by
+      intro x hx
+      simp only [List.mem_append, List.mem_singleton, not_or]
+      refine ⟨hmem x (by simp [first, hx]), ?_⟩
+      rintro rfl
+      exact hnd'.1 hx
+    have h1 := walk_spec k' f segs pre { g with members := g.members ++ [i] } hr.2.1
+      (by simp only [first, List.length_cons] at hf; omega) hnd'.2 hmem'
+    simp only [walk, Tree.id_node, hl, St.addMember, modifyAt_append, addMemberG_new hi]
+    rw [h1]
+    simp [first, endKids]
+  | .node i (k1 :: k2 :: ks), fuel, segs, pre, g, hr, hf, _, hmem => by
+    obtain ⟨f, rfl⟩ : ∃ f, fuel = f + 1 := ⟨fuel - 1, by simp only [first, List.length_singleton] at hf; omega⟩
+    simp only [Repr, List.map_cons] at hr
+    have hl : lookup adj i = some (k1.id :: k2.id :: ks.map Tree.id) := by simpa [enc] using hr.1
+    have hi : i ∉ g.members := hmem i (by simp [first])
+    simp only [walk, Tree.id_node, hl, St.addMember, modifyAt_append, addMemberG_new hi, first, endKids, List.map_cons]
+
 include hnd
 
-mutual
-  /-- `__sectionise` on the unfolding `t` of the dictionary, entered with the current group `g` (the last
-      group, at index `|pre|`): it succeeds, extends `g` by the chain `first t`, appends one fresh group per
-      later chain, and only makes implied proximals explicit. -/
-  theorem sectD_spec : ∀ (t : Tree) (fuel lim k : Nat) (segs : List Seg) (pre : List Group) (g : Group),
-      Repr adj t → need t ≤ fuel → nest t + k ≤ lim → Refines base segs →
-      (∀ ch ∈ rest t, ∃ p, actualProximal base k ch.1 = .ok p) →
-      (preorder t).Nodup → (∀ x ∈ first t, x ∉ g.members) →
-      (∀ g' ∈ pre ++ [g], g'.id ∉ names (pre.length + 1) (rest t)) → (names (pre.length + 1) (rest t)).Nodup →
-      ∃ segs', sectD adj fuel lim ⟨segs, pre ++ [g]⟩ t.id pre.length
-          = .ok ⟨segs', pre ++ { g with members := g.members ++ first t } :: mkFresh (pre.length + 1) (rest t)⟩ ∧
-        Refines base segs' ∧ (∀ x, HasProx segs x → HasProx segs' x) ∧ (∀ ch ∈ rest t, HasProx segs' ch.1)
-    | .node i [], fuel, lim, k, segs, pre, g, hr, hf, _, href, _, _, hmem, _, _ => by
-      obtain ⟨f, rfl⟩ : ∃ f, fuel = f + 1 := ⟨fuel - 1, by simp only [need] at hf; omega⟩
-      simp only [Repr, List.map_nil] at hr
-      have hl : lookup adj i = none := by simpa [enc] using hr.1
-      have hi : i ∉ g.members := hmem i (by simp [first])
-      refine ⟨segs, ?_, href, fun x hx => hx, by simp [rest]⟩
-      simp only [sectD, Tree.id_node, hl, St.addMember, modifyAt_append, addMemberG_new hi, first, rest, mkFresh]
-    | .node i [k'], fuel, lim, k, segs, pre, g, hr, hf, hlim, href, hap, hnd', hmem, hn1, hn2 => by
-      obtain ⟨f, rfl⟩ : ∃ f, fuel = f + 1 := ⟨fuel - 1, by simp only [need] at hf; omega⟩
-      simp only [Repr, ReprL, List.map_cons, List.map_nil] at hr
-      have hl : lookup adj i = some [k'.id] := by simpa [enc] using hr.1
-      have hi : i ∉ g.members := hmem i (by simp [first])
-      simp only [preorder, preorderL, List.append_nil, List.nodup_cons] at hnd'
-      have hmem' : ∀ x ∈ first k', x ∉ ({ g with members := g.members ++ [i] } : Group).members := by
-        intro x hx
-        simp only [List.mem_append, List.mem_singleton, not_or]
-        refine ⟨hmem x (by simp [first, hx]), ?_⟩
-        rintro rfl
-        exact hnd'.1 (first_sub_preorder k' x hx)
-      obtain ⟨segs', h1, h2, h3, h4⟩ := sectD_spec k' f lim k segs pre { g with members := g.members ++ [i] }
-        hr.2.1 (by simp only [need] at hf; omega) (by simpa [nest] using hlim) href (by simpa [rest] using hap)
-        hnd'.2 hmem' (by
-          intro g' hg'
-          simp only [List.mem_append, List.mem_singleton] at hg'
-          rcases hg' with hg' | rfl
-          · exact hn1 g' (by simp [hg'])
-          · exact hn1 g (by simp)) (by simpa [rest] using hn2)
-      refine ⟨segs', ?_, h2, h3, by simpa [rest] using h4⟩
-      simp only [sectD, Tree.id_node, hl, St.addMember, modifyAt_append, addMemberG_new hi]
-      rw [h1]
-      simp [first, rest]
-    | .node i (k1 :: k2 :: ks), fuel, lim, k, segs, pre, g, hr, hf, hlim, href, hap, hnd', hmem, hn1, hn2 => by
-      obtain ⟨f, rfl⟩ : ∃ f, fuel = f + 1 := ⟨fuel - 1, by simp only [need] at hf; omega⟩
-      simp only [Repr, List.map_cons] at hr
-      have hl : lookup adj i = some (k1.id :: k2.id :: ks.map Tree.id) := by simpa [enc] using hr.1
-      have hi : i ∉ g.members := hmem i (by simp [first])
-      simp only [preorder, List.nodup_cons] at hnd'
-      obtain ⟨segs', h1, h2, h3, h4⟩ := sectKids_spec (k1 :: k2 :: ks) f lim k segs
-        (pre ++ [{ g with members := g.members ++ [i] }]) hr.2 (by simp only [need] at hf; omega)
-        (by simp only [nest] at hlim; omega) href (by simpa [rest] using hap) hnd'.2
-        (by
-          intro g' hg'
-          simp only [List.mem_append, List.mem_singleton] at hg'
-          simp only [List.length_append, List.length_singleton]
-          rcases hg' with hg' | rfl
-          · exact hn1 g' (by simp [hg'])
-          · exact hn1 g (by simp))
-        (by simpa [rest] using hn2)
-      refine ⟨segs', ?_, h2, h3, by simpa [rest] using h4⟩
-      simp only [sectD, Tree.id_node, hl, St.addMember, modifyAt_append, addMemberG_new hi]
-      simp only [List.map_cons] at h1
-      rw [h1]
-      simp [first, rest]
-  theorem sectKids_spec : ∀ (ts : List Tree) (fuel lim k : Nat) (segs : List Seg) (gs : List Group),
-      ReprL adj ts → needL ts ≤ fuel → nestL ts + 1 + k ≤ lim → Refines base segs →
-      (∀ ch ∈ restL ts, ∃ p, actualProximal base k ch.1 = .ok p) →
-      (preorderL ts).Nodup →
-      (∀ g' ∈ gs, g'.id ∉ names gs.length (restL ts)) → (names gs.length (restL ts)).Nodup →
-      ∃ segs', sectKids adj fuel lim ⟨segs, gs⟩ (ts.map Tree.id) = .ok ⟨segs', gs ++ mkFresh gs.length (restL ts)⟩ ∧
-        Refines base segs' ∧ (∀ x, HasProx segs x → HasProx segs' x) ∧ (∀ ch ∈ restL ts, HasProx segs' ch.1)
-    | [], fuel, lim, k, segs, gs, _, hf, _, href, _, _, _, _ => by
-      obtain ⟨f, rfl⟩ : ∃ f, fuel = f + 1 := ⟨fuel - 1, by simp only [needL] at hf; omega⟩
-      exact ⟨segs, by simp [sectKids, restL, mkFresh], href, fun x hx => hx, by simp [restL]⟩
-    | t :: ts, fuel, lim, k, segs, gs, hr, hf, hlim, href, hap, hnd', hn1, hn2 => by
-      obtain ⟨f, rfl⟩ : ∃ f, fuel = f + 1 := ⟨fuel - 1, by simp only [needL] at hf; omega⟩
-      obtain ⟨lim', rfl⟩ : ∃ l, lim = l + 1 := ⟨lim - 1, by omega⟩
-      simp only [needL] at hf
-      simp only [nestL] at hlim
+/-- `while todo:` on a stack of branches that are the unfoldings `ts` of the dictionary, none of which has a
+    group yet: it succeeds whatever the nesting of branch points, appends one fresh group per chain (in the
+    order in which the recursive version created them: depth first), and only makes implied proximals explicit.
+    `k` = frames within which the proximal of every chain head resolves. -/
+theorem sectLoop_spec : ∀ (fuel : Nat) (ts : List Tree) (lim k : Nat) (segs : List Seg) (gs : List Group),
+    ReprL adj ts → sizeL ts + 1 ≤ fuel → k ≤ lim → Refines base segs →
+    (∀ ch ∈ restL ts, ∃ p, actualProximal base k ch.1 = .ok p) →
+    (preorderL ts).Nodup →
+    (∀ g' ∈ gs, g'.id ∉ names gs.length (restL ts)) → (names gs.length (restL ts)).Nodup →
+    ∃ segs', sectLoop adj fuel lim ⟨segs, gs⟩ (ts.map (fun t => (t.id, none)))
+        = .ok ⟨segs', gs ++ mkFresh gs.length (restL ts)⟩ ∧
+      Refines base segs' ∧ (∀ x, HasProx segs x → HasProx segs' x) ∧ (∀ ch ∈ restL ts, HasProx segs' ch.1) := by
+  intro fuel
+  induction fuel with
+  | zero => intro ts lim k segs gs _ hf; omega
+  | succ f ih =>
+    intro ts lim k segs gs hr hf hlim href hap hnd' hn1 hn2
+    cases ts with
+    | nil => exact ⟨segs, by simp [sectLoop, restL, mkFresh], href, fun x hx => hx, by simp [restL]⟩
+    | cons t ts =>
+      simp only [sizeL] at hf
       simp only [ReprL] at hr
-      simp only [preorderL, List.nodup_append] at hnd'
-      -- the names involved
-      have hnames : names gs.length (restL (t :: ts)) =
-          genName (gs.length - 1) t.id :: (names (gs.length + 1) (rest t) ++
-            names (gs.length + 1 + (rest t).length) (restL ts)) := by
-        simp only [restL, List.cons_append, names_cons, names_append]
-      rw [hnames] at hn1 hn2
-      simp only [List.nodup_cons, List.mem_append, not_or, List.nodup_append] at hn2
+      have hpre : preorderL (t :: ts) = first t ++ preorderL (endKids t ++ ts) := by
+        simp only [preorderL, preorder_first_endKids t, preorderL_append, List.append_assoc]
+      rw [hpre, List.nodup_append] at hnd'
+      have hrest : restL (t :: ts) = (t.id, first t) :: restL (endKids t ++ ts) := by
+        simp only [restL, restL_append, rest_eq_restL_endKids t, List.cons_append]
+      rw [hrest] at hap hn1 hn2 ⊢
+      rw [names_cons] at hn1 hn2
+      simp only [List.nodup_cons] at hn2
       -- open the group for `t`
-      obtain ⟨p, hp0⟩ := hap (t.id, first t) (by simp [restL])
-      have hp1 : actualProximal segs (lim' + 1) t.id = .ok p :=
-        actualProximal_mono segs k t.id p (href.ap k t.id p hp0) (lim' + 1) (by omega)
+      obtain ⟨p, hp0⟩ := hap (t.id, first t) (by simp)
+      have hp1 : actualProximal segs lim t.id = .ok p :=
+        actualProximal_mono segs k t.id p (href.ap k t.id p hp0) lim hlim
       obtain ⟨s, hs⟩ := actualProximal_ok_getSegment hp1
       have hsid : s.id = t.id := (getSegment_some hs).1
       have href1 : Refines base (setProx segs t.id p) := href.step hnd hp1
       have hfresh : ∀ g' ∈ gs, g'.id ≠ genName (gs.length - 1) t.id := by
         intro g' hg' e
         exact hn1 g' hg' (by simp [e])
-      obtain ⟨segs2, h1, h2, h3, h4⟩ := sectD_spec t f lim' k (setProx segs t.id p) gs
-        (freshGroup (genName (gs.length - 1) t.id) []) hr.1 (by omega) (by omega) href1
-        (fun ch hc => hap ch (by simp [restL, hc])) hnd'.1 (by simp [freshGroup])
-        (by
-          intro g' hg'
-          simp only [List.mem_append, List.mem_singleton] at hg'
-          rcases hg' with hg' | rfl
-          · intro hin
-            exact hn1 g' hg' (by simp [hin])
-          · exact hn2.1.1)
-        hn2.2.1
-      rw [freshGroup_extend] at h1
-      have hlen : (gs ++ freshGroup (genName (gs.length - 1) t.id) (first t) ::
-          mkFresh (gs.length + 1) (rest t)).length = gs.length + 1 + (rest t).length := by
-        simp [mkFresh_length]; omega
-      obtain ⟨segs3, g1, g2, g3, g4⟩ := sectKids_spec ts f (lim' + 1) k segs2
-        (gs ++ freshGroup (genName (gs.length - 1) t.id) (first t) :: mkFresh (gs.length + 1) (rest t))
-        hr.2 (by omega) (by omega) h2 (fun ch hc => hap ch (by simp [restL, hc])) hnd'.2.1
+      -- walk down its first chain
+      have hw := walk_spec (adj := adj) t f (setProx segs t.id p) gs (freshGroup (genName (gs.length - 1) t.id) [])
+        hr.1 (by have := size_first_endKids t; omega) hnd'.1 (by simp [freshGroup])
+      rw [freshGroup_extend] at hw
+      -- the rest of the stack
+      have hlen : (gs ++ [freshGroup (genName (gs.length - 1) t.id) (first t)]).length = gs.length + 1 := by simp
+      obtain ⟨segs3, g1, g2, g3, g4⟩ := ih (endKids t ++ ts) lim k (setProx segs t.id p)
+        (gs ++ [freshGroup (genName (gs.length - 1) t.id) (first t)])
+        (reprL_append (repr_endKids t hr.1) hr.2)
+        (by rw [sizeL_append]; have := size_first_endKids t; have := first_length_pos t; omega)
+        hlim href1 (fun ch hc => hap ch (by simp [hc])) hnd'.2.1
         (by
           rw [hlen]
           intro g' hg' hin
-          simp only [List.mem_append, List.mem_cons] at hg'
-          rcases hg' with hg' | rfl | hg'
+          simp only [List.mem_append, List.mem_singleton] at hg'
+          rcases hg' with hg' | rfl
           · exact hn1 g' hg' (by simp [hin])
-          · exact hn2.1.2 hin
-          · exact hn2.2.2.2 g'.id (List.mem_map.2 ⟨g', hg', rfl⟩) g'.id hin rfl)
-        (by rw [hlen]; exact hn2.2.2.1)
-      refine ⟨segs3, ?_, g2, ?_, ?_⟩
-      · simp only [List.map_cons, sectKids, hs, hsid, hp1, addGroup_fresh hfresh]
-        rw [h1]
-        simp only
-        rw [hlen] at g1
+          · exact hn2.1 hin)
+        (by rw [hlen]; exact hn2.2)
+      rw [hlen] at g1
+      have g1' : sectLoop adj f lim
+          ⟨setProx segs t.id p, gs ++ [freshGroup (genName (gs.length - 1) t.id) (first t)]⟩
+          (((endKids t).map Tree.id).map (fun c => (c, (none : Option Nat))) ++ ts.map (fun t => (t.id, none)))
+          = .ok ⟨segs3, gs ++ mkFresh gs.length ((t.id, first t) :: restL (endKids t ++ ts))⟩ := by
+        rw [List.map_append] at g1
+        rw [List.map_map]
+        simp only [Function.comp_def]
         rw [g1]
-        simp only [restL, List.cons_append, mkFresh, freshAt_eq, mkFresh_append, List.append_assoc]
+        simp only [mkFresh, freshAt_eq, List.append_assoc, List.singleton_append]
+      refine ⟨segs3, ?_, g2, ?_, ?_⟩
+      · simp only [List.map_cons, sectLoop, openBranch, hs, hsid, hp1, addGroup_fresh hfresh, hw, g1']
       · intro x hx
-        exact g3 x (h3 x (hx.setProx_other t.id p))
+        exact g3 x (hx.setProx_other t.id p)
       · intro ch hc
-        simp only [restL, List.cons_append, List.mem_cons, List.mem_append] at hc
-        rcases hc with rfl | hc | hc
-        · exact g3 _ (h3 _ (HasProx.setProx_self hs p))
-        · exact g3 _ (h4 ch hc)
+        simp only [List.mem_cons] at hc
+        rcases hc with rfl | hc
+        · exact g3 _ (HasProx.setProx_self hs p)
         · exact g4 ch hc
-end
 
 end Main
 
@@ -1134,18 +1164,20 @@ theorem head_mem_preorder {t : Tree} {ch : Nat × List Nat} (h : ch ∈ rest t) 
 theorem sectionPhase_spec (cell : St) (cache : Option Adj) (root lim fuel k : Nat) (t : Tree)
     (hc : FreshCache cell cache)
     (hnd : (cell.segs.map (·.id)).Nodup) (hr : Repr (adjacency cell.segs) t) (hroot : t.id = root)
-    (hpre : (preorder t).Nodup) (hfuel : need t ≤ fuel) (hlim : nest t + k + 1 ≤ lim)
-    (hap : ∀ x ∈ preorder t, ∃ p, actualProximal cell.segs k x = .ok p)
+    (hpre : (preorder t).Nodup) (hfuel : size t + 1 ≤ fuel) (hlim : k + 1 ≤ lim)
+    (hap0 : ∃ p, actualProximal cell.segs k root = .ok p)
+    (hap : ∀ ch ∈ rest t, ∃ p, actualProximal cell.segs k ch.1 = .ok p)
     (hclash : ∀ g ∈ cell.groups, ∀ n ∈ newGroups cell.groups.length t, g.id ≠ n.id) :
     ∃ segs', sectionPhase cell cache root lim fuel = .ok ⟨segs', cell.groups ++ newGroups cell.groups.length t⟩ ∧
       Refines cell.segs segs' ∧ HasProx segs' root ∧ ∀ ch ∈ rest t, HasProx segs' ch.1 := by
   subst hroot
   have hadj : cache.getD (adjacency cell.segs) = adjacency cell.segs := by
     rcases hc with rfl | rfl <;> rfl
-  obtain ⟨p0, hp0⟩ := hap t.id (id_mem_preorder t)
+  obtain ⟨p0, hp0⟩ := hap0
   obtain ⟨s, hs⟩ := actualProximal_ok_getSegment hp0
   have hsid : s.id = t.id := (getSegment_some hs).1
   obtain ⟨lim', rfl⟩ : ∃ l, lim = l + 1 := ⟨lim - 1, by omega⟩
+  obtain ⟨f, rfl⟩ : ∃ f, fuel = f + 1 := ⟨fuel - 1, by omega⟩
   have hp1 : actualProximal cell.segs (lim' + 1) t.id = .ok p0 :=
     actualProximal_mono _ k t.id p0 hp0 _ (by omega)
   -- the root's proximal
@@ -1174,10 +1206,22 @@ theorem sectionPhase_spec (cell : St) (cache : Option Adj) (root lim fuel k : Na
     exact hclash g hg ⟨genName cell.groups.length t.id, some sectionNlx, first t, []⟩ (by simp [newGroups])
   have hidsnd := newGroups_ids_nodup cell.groups.length t hpre
   rw [newGroups_ids, List.nodup_cons] at hidsnd
-  obtain ⟨segs2, h1, h2, h3, h4⟩ := sectD_spec hnd t fuel lim' k segs1 cell.groups
-    (freshGroup (genName cell.groups.length t.id) []) hr hfuel (by omega) href1
-    (fun ch hch => hap ch.1 (head_mem_preorder hch)) hpre (by simp [freshGroup])
+  have hpre' := hpre
+  rw [preorder_first_endKids t, List.nodup_append] at hpre'
+  -- the root's chain
+  have hw := walk_spec (adj := adjacency cell.segs) t f segs1 cell.groups
+    (freshGroup (genName cell.groups.length t.id) []) hr
+    (by have := size_first_endKids t; omega) hpre'.1 (by simp [freshGroup])
+  rw [freshGroup_extend] at hw
+  -- everything below it
+  have hlen : (cell.groups ++ [freshGroup (genName cell.groups.length t.id) (first t)]).length
+      = cell.groups.length + 1 := by simp
+  obtain ⟨segs2, h1, h2, h3, h4⟩ := sectLoop_spec hnd f (endKids t) lim' k segs1
+    (cell.groups ++ [freshGroup (genName cell.groups.length t.id) (first t)])
+    (repr_endKids t hr) (by have := size_first_endKids t; have := first_length_pos t; omega) (by omega) href1
+    (by rw [← rest_eq_restL_endKids]; exact hap) hpre'.2.1
     (by
+      rw [hlen, ← rest_eq_restL_endKids]
       intro g' hg'
       simp only [List.mem_append, List.mem_singleton] at hg'
       rcases hg' with hg' | rfl
@@ -1185,13 +1229,15 @@ theorem sectionPhase_spec (cell : St) (cache : Option Adj) (root lim fuel k : Na
         obtain ⟨n, hn, hnid⟩ := List.mem_map.1 hin
         exact hclash g' hg' n (by simp [newGroups, hn]) hnid.symm
       · exact hidsnd.1)
-    hidsnd.2
-  rw [freshGroup_extend] at h1
-  refine ⟨segs2, ?_, h2, h3 t.id hhp1, h4⟩
+    (by rw [hlen, ← rest_eq_restL_endKids]; exact hidsnd.2)
+  rw [hlen, ← rest_eq_restL_endKids] at h1
+  refine ⟨segs2, ?_, h2, h3 t.id hhp1, by rw [rest_eq_restL_endKids]; exact h4⟩
   unfold sectionPhase
   simp only [hadj, hs, hname, addGroup_fresh hfresh]
   rw [he1]
-  simp only
+  simp only [sectLoop, hw, List.append_nil]
+  rw [List.map_map]
+  simp only [Function.comp_def]
   rw [h1]
   simp [newGroups, freshGroup]
 
@@ -1421,8 +1467,9 @@ theorem run_spec {oi : List Group → Group → Group} (hoi : IdPreserving oi)
     (cell : St) (cache : Option Adj) (root : Nat) (reorder optimise : Bool) (lim fuel k : Nat) (t : Tree)
     (hc : FreshCache cell cache)
     (hnd : (cell.segs.map (·.id)).Nodup) (hr : Repr (adjacency cell.segs) t) (hroot : t.id = root)
-    (hpre : (preorder t).Nodup) (hfuel : need t ≤ fuel) (hlim : nest t + k + 1 ≤ lim)
-    (hap : ∀ x ∈ preorder t, ∃ p, actualProximal cell.segs k x = .ok p)
+    (hpre : (preorder t).Nodup) (hfuel : size t + 1 ≤ fuel) (hlim : k + 1 ≤ lim)
+    (hap0 : ∃ p, actualProximal cell.segs k root = .ok p)
+    (hap : ∀ ch ∈ rest t, ∃ p, actualProximal cell.segs k ch.1 = .ok p)
     (hclash : ∀ g ∈ cell.groups, ∀ n ∈ newGroups cell.groups.length t, g.id ≠ n.id)
     (hne : ∀ g ∈ cell.groups, g.id ≠ "") :
     ∃ segs' gs' olds', run oi cell cache root reorder optimise lim fuel = .ok ⟨segs', gs'⟩ ∧
@@ -1430,7 +1477,7 @@ theorem run_spec {oi : List Group → Group → Group} (hoi : IdPreserving oi)
       Rel2 (OldRel optimise) cell.groups olds' ∧
       gs'.Perm (olds' ++ newGroups cell.groups.length t) ∧
       (reorder = false → gs' = olds' ++ newGroups cell.groups.length t) := by
-  obtain ⟨segs', h1, h2, h3, h4⟩ := sectionPhase_spec cell cache root lim fuel k t hc hnd hr hroot hpre hfuel hlim hap hclash
+  obtain ⟨segs', h1, h2, h3, h4⟩ := sectionPhase_spec cell cache root lim fuel k t hc hnd hr hroot hpre hfuel hlim hap0 hap hclash
   cases optimise with
   | false =>
     refine ⟨segs', _, cell.groups, by simp only [run, h1]; rfl, h2, h3, h4,
@@ -1477,7 +1524,9 @@ theorem run_spec {oi : List Group → Group → Group} (hoi : IdPreserving oi)
 /-! ### the hypotheses of the C16 theorems, and their decidable form -/
 
 /-- well-formedness of a call: what the C16 theorems assume.  `t` is the unfolding of the cell's adjacency
-    dictionary from `root`, `k` the number of frames within which every reachable segment's proximal resolves. -/
+    dictionary from `root` (it exists for every acyclic morphology: section F), `k` the number of frames within
+    which the proximal of the root and of the first segment of every later chain resolves.  The nesting of branch
+    points is not restricted (the sectioniser is iterative). -/
 structure Wf (cell : St) (cache : Option Adj) (root lim fuel k : Nat) (t : Tree) : Prop where
   /-- no stale `adjacency_list` cache (known finding otherwise) -/
   cache_fresh : FreshCache cell cache
@@ -1489,11 +1538,13 @@ structure Wf (cell : St) (cache : Option Adj) (root lim fuel k : Nat) (t : Tree)
   /-- ... and is a tree: no segment is reached twice -/
   tree : (preorder t).Nodup
   /-- model artefact: enough fuel -/
-  fuel_ok : need t ≤ fuel
-  /-- enough Python frames for the nesting of branch points and the proximal chains (known finding otherwise) -/
-  frames : nest t + k + 1 ≤ lim
-  /-- every reachable segment has a proximal: explicit, or implied through its ancestors within `k` frames -/
-  proximal : ∀ x ∈ preorder t, ∃ p, actualProximal cell.segs k x = .ok p
+  fuel_ok : size t + 1 ≤ fuel
+  /-- enough Python frames for `get_actual_proximal` (known finding otherwise) -/
+  frames : k + 1 ≤ lim
+  /-- the root has a proximal: explicit, or implied through its ancestors within `k` frames -/
+  root_proximal : ∃ p, actualProximal cell.segs k root = .ok p
+  /-- so has the first segment of every later chain (no other segment needs one) -/
+  head_proximal : ∀ ch ∈ rest t, ∃ p, actualProximal cell.segs k ch.1 = .ok p
   /-- no pre-existing group carries one of the names the call generates (known finding otherwise) -/
   no_clash : ∀ g ∈ cell.groups, ∀ n ∈ newGroups cell.groups.length t, g.id ≠ n.id
   /-- pre-existing groups have non-empty ids (`get_segment_group("")` raises) -/
@@ -1525,13 +1576,16 @@ theorem hypB_sound {cell : St} {cache : Option Adj} {root lim fuel : Nat}
     simp only [hb, Bool.and_eq_true, decide_eq_true_eq, List.all_eq_true] at h
     obtain ⟨⟨⟨hc, hids⟩, _⟩, ⟨⟨⟨⟨⟨ht, hl⟩, hf⟩, hap⟩, hcl⟩, hne⟩⟩ := h
     obtain ⟨hr, hroot⟩ := buildTree_sound _ _ _ _ hb
-    refine ⟨t, lim - nest t - 1, ⟨?_, nodupB_iff.1 hids, hr, hroot, nodupB_iff.1 ht, hf, by omega, ?_, ?_, ?_⟩⟩
-    · left
-      cases cache with
-      | none => rfl
-      | some _ => simp at hc
-    · intro x hx
-      exact isOk_iff.1 (hap x hx)
+    refine ⟨t, lim - 1, ⟨?_, nodupB_iff.1 hids, hr, hroot, nodupB_iff.1 ht, hf, by omega, ?_, ?_, ?_, ?_⟩⟩
+    · cases cache with
+      | none => exact Or.inl rfl
+      | some a =>
+        right
+        simp only [decide_eq_true_eq] at hc
+        rw [hc]
+    · exact isOk_iff.1 (hap root (by simp))
+    · intro ch hc
+      exact isOk_iff.1 (hap ch.1 (List.mem_cons_of_mem _ (List.mem_map.2 ⟨ch, hc, rfl⟩)))
     · intro g hg n hn e
       have := hcl g hg
       simp only [Bool.not_eq_eq_eq_not, Bool.not_true, List.any_eq_false, beq_iff_eq] at this
